@@ -24,6 +24,7 @@ import (
 	"errors"
 	"fmt"
 	"os"
+	"regexp"
 	"strings"
 
 	"github.com/tsawler/tabula"
@@ -141,7 +142,7 @@ func cipherURI(form, member string) string {
 }
 
 // buildDRM returns the EPUB bytes.
-func buildDRM(assign [5]int, obfAlg, cipherAlg, form string, rights bool, style, opf, entryOrder, metaPos string) []byte {
+func buildDRM(assign [5]int, obfAlg, cipherAlg, form string, rights bool, style, opf, entryOrder, metaPos, opfInv string) []byte {
 	h := itemHrefs(form, opf)
 	b := epubw.Book{Version: 3, OPFPath: opfPaths[opf], Title: "Drm Sample", Author: "Verif", Language: "en", Identifier: bookID,
 		Chapters: []epubw.Chapter{
@@ -154,6 +155,10 @@ func buildDRM(assign [5]int, obfAlg, cipherAlg, form string, rights bool, style,
 			{ID: "img", Href: h[4], MediaType: "image/png", InManifest: true, Raw: string(pngBytes)},
 		}}
 	ms := b.Members()
+	if opfInv == "reversed" {
+		k := idx(ms, opfPaths[opf])[0]
+		ms[k].Data = []byte(rewriteInventory(string(ms[k].Data), inventory{member: opfPaths[opf], elem: opfItemRe}, "reversed", true))
+	}
 	var entryList []string
 	p := "enc:"
 	dataOpen := `<enc:EncryptedData Id="ED%d">`
@@ -255,8 +260,8 @@ func drm(e *harness.Env) {
 								for i, n := range itemNames {
 									b.WriteString(" " + n + "=" + classTok[assign[i]])
 								}
-								fmt.Fprintf(&b, " obfalg=%s cipheralg=%s uri=%s rights=%v style=%s opf=%s entries=%s metapos=%s api=%s",
-									obfAlg, cipherAlg, form, rights, v.style, v.opf, v.entries, v.metaPos, api)
+								fmt.Fprintf(&b, " obfalg=%s cipheralg=%s uri=%s rights=%v style=%s opf=%s entries=%s metapos=%s opfinv=%s api=%s",
+									obfAlg, cipherAlg, form, rights, v.style, v.opf, v.entries, v.metaPos, v.opfInv, api)
 								desc := b.String()
 								if !e.Own(desc) {
 									continue
@@ -271,11 +276,14 @@ func drm(e *harness.Env) {
 	}
 }
 
-type drmVariant struct{ style, opf, entries, metaPos string }
+var opfItemRe = regexp.MustCompile(`<item\s[^>]*/>`)
+
+type drmVariant struct{ style, opf, entries, metaPos, opfInv string }
 
 // drmVariants: spelling of encryption.xml x location of the package document x order of the
-// EncryptedData elements x position of the META-INF members. thorough: full product (2x3x2x2);
-// quick: style x opf{OEBPS,root} x entries with metapos alternating.
+// EncryptedData elements x position of the META-INF members x order of the OPF manifest (items and
+// attributes as written / reversed). thorough: full product 2x3x2x2 with the manifest order
+// alternating; quick: style x opf{OEBPS,root} x entries with metapos and manifest order alternating.
 func drmVariants(thorough bool) []drmVariant {
 	var out []drmVariant
 	for si, style := range []string{"prefixed", "default-ns"} {
@@ -285,7 +293,15 @@ func drmVariants(thorough bool) []drmVariant {
 					if !thorough && (opf == "nested" || mi != (si+oi+ei)%2) {
 						continue
 					}
-					out = append(out, drmVariant{style, opf, entries, metaPos})
+					// OPF manifest as written / items in reverse order with reversed attribute order
+					// alternating, so that each manifest order meets every value of every other dimension
+					// (the full 2x would put thorough too close to its time budget on a loaded machine)
+					for vi, opfInv := range []string{"asis", "reversed"} {
+						if (!thorough && vi != (si+ei)%2) || (thorough && vi != (si+oi+ei+mi)%2) {
+							continue
+						}
+						out = append(out, drmVariant{style, opf, entries, metaPos, opfInv})
+					}
 				}
 			}
 		}
@@ -294,7 +310,7 @@ func drmVariants(thorough bool) []drmVariant {
 }
 
 func drmCase(e *harness.Env, desc string, assign [5]int, obfAlg, cipherAlg, form string, rights bool, v drmVariant, api string) {
-	data := buildDRM(assign, obfAlg, cipherAlg, form, rights, v.style, v.opf, v.entries, v.metaPos)
+	data := buildDRM(assign, obfAlg, cipherAlg, form, rights, v.style, v.opf, v.entries, v.metaPos, v.opfInv)
 	fl := map[string][]byte{"input.epub": data}
 	e.Begin(desc)
 	var text string
